@@ -6,6 +6,7 @@ import argparse
 
 from vlib.stubs.strat import (Decider, Oracle, RequiredTokensOracle,
                               ConsistentNumeralsOracle, SameShapeOracle,
+                              NoShrinkOracle,
                               HashClassOracle, FakeMP,
                               tokens)
 
@@ -178,6 +179,8 @@ def setup(decider, strategy, jobs, nbits, script, mutset, maxwrites=12,
                                               env.orig)
     elif oracle == 'shape':
         env.oracle = SameShapeOracle(decider, KEYS[script], env.orig)
+    elif oracle == 'grow':
+        env.oracle = NoShrinkOracle(decider, KEYS[script], env.orig)
     else:
         env.oracle = RequiredTokensOracle(decider, KEYS[script], env.orig)
     env.mp = FakeMP(decider, prefetch)
